@@ -224,8 +224,8 @@ def write_registry(copy, reg):
     lines.append("")
     lines.append("func init() {")
     for i, ent in enumerate(reg):
-        lines.append('\tRegister(&Pkg{Name: %s, SchemaFn: c%d.Schema, GlobalTree: func() map[string]*yangEntry { return c%d.SchemaTree }, Unmarshal: c%d.Unmarshal, Compressed: %s, Tags: %s})' % (
-            json.dumps(ent["name"]), i, i, i, "true" if ent.get("compressed") else "false",
+        lines.append('\tRegister(&Pkg{Name: %s, SchemaFn: c%d.Schema, GlobalTree: func() map[string]*yangEntry { return c%d.SchemaTree }, SetGlobalTree: func(m map[string]*yangEntry) { c%d.SchemaTree = m }, Unmarshal: c%d.Unmarshal, Compressed: %s, Tags: %s})' % (
+            json.dumps(ent["name"]), i, i, i, i, "true" if ent.get("compressed") else "false",
             "[]string{" + ",".join(json.dumps(t) for t in ent.get("tags", [])) + "}"))
     lines.append("}")
     with open(os.path.join(d, "registry_gen.go"), "w") as f:
